@@ -156,6 +156,29 @@ func (qe *QueryExecutor) executeQuery(
 func (qe *QueryExecutor) checkForUpdates(
 	p peer.ID, taskData ResponseTask, rb responseassembler.ResponseBuilder) error {
 	for {
+		if verifhook.Enabled {
+			// several signals can be pending at once and select picks among them at
+			// random; under simulation an error or a pause is taken before an update,
+			// and which of those two goes first is the run's ordering salt
+			sigs := []string{"err", "pause"}
+			verifhook.Order("queryexecutor.checkForUpdates", len(sigs), func(i int) string { return sigs[i] }, func(i, j int) { sigs[i], sigs[j] = sigs[j], sigs[i] })
+			for _, sig := range sigs {
+				if sig == "err" {
+					select {
+					case err := <-taskData.Signals.ErrSignal:
+						return err
+					default:
+					}
+				} else {
+					select {
+					case <-taskData.Signals.PauseSignal:
+						rb.PauseRequest()
+						return hooks.ErrPaused{}
+					default:
+					}
+				}
+			}
+		}
 		select {
 		case <-taskData.Signals.PauseSignal:
 			rb.PauseRequest()
